@@ -3,6 +3,7 @@
 package main
 
 import (
+	"context"
 	"flag"
 	"fmt"
 	"net"
@@ -16,6 +17,7 @@ import (
 	"time"
 
 	erpc "github.com/henrylee2cn/erpc/v6"
+	"github.com/henrylee2cn/erpc/v6/codec"
 
 	"verifharness/bed"
 	"verifharness/core"
@@ -137,10 +139,10 @@ type caseState struct {
 	viols []violation
 	nviol int64
 
-	callsOK, callsFailed, pushesSent, pushesOK, rawPushes int64
-	failSamples                                 []string
-	pushSeen                                    sync.Map
-	pushRecv                                    int64
+	callsOK, callsFailed, pushesSent, pushesOK, rawPushes, acceptAsked int64
+	failSamples                                                        []string
+	pushSeen                                                           sync.Map
+	pushRecv                                                           int64
 }
 
 func (cs *caseState) report(symptom, kind, detail string) {
@@ -152,8 +154,51 @@ func (cs *caseState) report(symptom, kind, detail string) {
 	cs.mu.Unlock()
 }
 
+// farCtx is a context whose deadline never comes during a run.
+var farCtx, _ = context.WithTimeout(context.Background(), 6*time.Hour)
+
+// acceptFor returns the body codec the caller asks the reply to be encoded with (0: none asked).
+// The struct kinds can be carried by each of the three text codecs.
+func acceptFor(kind, t string) byte {
+	switch kind {
+	case "json", "form", "xml":
+		h := fnv(t)
+		if h%3 == 1 {
+			return []byte{codec.ID_JSON, codec.ID_FORM, codec.ID_XML}[(h/3)%3]
+		}
+	}
+	return 0
+}
+
+func fnv(s string) uint64 {
+	h := uint64(14695981039346656037)
+	for i := 0; i < len(s); i++ {
+		h ^= uint64(s[i])
+		h *= 1099511628211
+	}
+	return h
+}
+
+// dupMetaOK: transports that carry metadata as a list of pairs (http headers and thrift header maps are single-valued).
+func dupMetaOK(proto string) bool {
+	switch proto {
+	case "raw", "json", "pb", "ws-json", "ws-pb":
+		return true
+	}
+	return false
+}
+
 func settings(cfg Config, kind, t string) []erpc.MessageSetting {
 	s := []erpc.MessageSetting{erpc.WithBodyCodec(tok.CodecID(kind)), erpc.WithSetMeta("Tok", t), erpc.WithSetMeta("M1", tok.MetaVal(t, 1))}
+	if dupMetaOK(cfg.Proto) && tok.DupMeta(t) {
+		s = append(s, erpc.WithSetMeta("Dn", "2"), erpc.WithAddMeta("Dup", tok.MetaVal(t, 3)), erpc.WithAddMeta("Dup", tok.MetaVal(t, 4)))
+	}
+	if a := acceptFor(kind, t); a != 0 {
+		s = append(s, erpc.WithAcceptBodyCodec(a))
+	}
+	if fnv(t)%5 == 2 {
+		s = append(s, erpc.WithContext(farCtx))
+	}
 	// some messages end their metadata with a pair whose value is empty (token-determined), others carry a value there
 	if v := tok.TailMeta(t); v != "-" {
 		s = append(s, erpc.WithSetMeta("Ztail", v))
@@ -191,6 +236,13 @@ func (cs *caseState) checkReply(kind, t string, cmd erpc.CallCmd, arg interface{
 	if want := tok.ReplyPayload(t); rp != want {
 		cs.report("caller-result-corrupt", kind, fmt.Sprintf("token %q: result payload (len %d) %.60q differs from what its handler produced (len %d) %.60q", t, len(rp), rp, len(want), want))
 		return
+	}
+	if a := acceptFor(kind, t); a != 0 {
+		atomic.AddInt64(&cs.acceptAsked, 1)
+		if got := cmd.InputBodyCodec(); got != a {
+			cs.report("reply-codec-not-the-accepted-one", kind, fmt.Sprintf("token %q: the call asked for a reply in body codec %d, the OK reply came in codec %d", t, a, got))
+			return
+		}
 	}
 	im := cmd.InputMeta()
 	if im == nil {
@@ -452,6 +504,7 @@ func runCase(id string, cfg Config, r *core.Rand) {
 	core.Add("calls_failed", cs.callsFailed)
 	core.Add("pushes_sent", cs.pushesSent)
 	core.Add("raw_pushes_sent", cs.rawPushes)
+	core.Add("replies_in_an_accepted_codec_checked", cs.acceptAsked)
 	core.Add("pushes_received", atomic.LoadInt64(&cs.pushRecv))
 	core.Add("handler_invocations", mon.Handled)
 	core.Add("ctx_recycles_observed", mon.Recycles)
@@ -517,7 +570,7 @@ func runCase(id string, cfg Config, r *core.Rand) {
 			core.Begin(rid, cfg)
 		}
 		core.Result(core.R{ID: rid, Verdict: core.Violated, FP: fmt.Sprintf("%s/traffic/%s/%s", *prop, cfg.Proto, k),
-			What: fmt.Sprintf("%s %s: %s (%d observations in this case)", cfg.Proto, k, vs[0].detail, len(vs)),
+			What:    fmt.Sprintf("%s %s: %s (%d observations in this case)", cfg.Proto, k, vs[0].detail, len(vs)),
 			Witness: map[string]interface{}{"observations": details, "total_in_case": cs.nviol}, Desc: cfg, Sig: sig})
 	}
 }
@@ -666,7 +719,7 @@ func apiSoup(wg *sync.WaitGroup, stop *int32, pa, pb erpc.Peer, l *bed.Link, r *
 type discard struct{}
 
 func (discard) Output(calldepth int, msgBytes []byte, loggerLevel erpc.LoggerLevel) {}
-func (discard) Flush() error                                                     { return nil }
+func (discard) Flush() error                                                        { return nil }
 
 var cpuprofile = flag.String("cpuprofile", "", "")
 
